@@ -120,6 +120,22 @@ S = {
          'function that finishes in time and RETURNS an exception instance'),
  'S60': ('SupSelChoiceOptionMapping.resolve skips a choice that is not active yet and never revisits it',
          'nested supplementary choice whose option mapping was registered before its parent\'s'),
+ 'S61': ('fast.py::_iter_neighborhood: `0 < value` instead of `0 <= value` (option 0 never proposed as a repair)',
+         'FAST encoder, infeasible requested combination whose every feasible repair moves a choice DOWN to option 0'),
+ 'S62': ('DSG.initialize_choices returns self.resolve_single_selection_choices() instead of the pruned copy',
+         'incompatibility between a node confirmed from the start nodes without passing a choice and a node that exists only under an option'),
+ 'S65': ('GraphProcessor.get_graph: connection-graph cache key without the values of earlier connection choices',
+         '>= 2 connection choices active together, decode (k1=a,k2=b) then (k1=a\',k2=b) on one processor'),
+ 'S66': ('get_mod_nodes_remove_incompatibilities memoises derived edges per deriving node in the shared influence-matrix cache',
+         'node shared by two options x1,x2 carrying a choice, an earlier-evaluated option incompatible with both, a later one with only one'),
+ 'S68': ('DSG.get_for_adjusted passes the constraint list without copying',
+         'graph that already holds a constraint, copied, second constraint added on the COPY: the original reports it too'),
+ 'S71': ('get_assignment_encoding_args renumbers only duplicate existence patterns',
+         'grouping node whose different member subsets give the same combined degree (duplicate pattern) followed by another conditional connector'),
+ 'S74': ('fast.py::_iter_neighborhood: walk stops when ONE direction leaves the option range (`or` for `and`)',
+         'FAST encoder, choice with >= 3-4 options whose near options are ruled out (PERMUTATION over 4-option choices, vector [0,0,0])'),
+ 'S78': ('DSG.fingerprint() memoised on the object (key: node/edge/start/constraint counts), travels with the pickle',
+         'fingerprint()/is_same() called before pickling, restored under another hash seed (or a size-preserving in-place edit)'),
  'S40': ('SupDSG.resolve memoised per set of existing source node names',
          'two source architectures with the same node set and different selections resolved on one SupDSG'),
 }
